@@ -101,6 +101,7 @@ impl Engine for HrLiveEngine {
             return vec![format!("hr.update 2 {} / 0 /", es.join(" "))];
         }
         if idx == 16 { return vec!["hr.conc 4 400 0 0".into()]; }
+        if idx == 21 { return vec!["hr.conc 8 2000 0 0".into()]; }   // many callers, many rounds: answers taken out of token order
         if idx == 17 { return vec!["hr.update 3 0*1 1*2 / 2 / 1".into()]; }
         if idx == 18 { return vec!["hr.bulk 300".into()]; }
         if idx == 19 || (idx > 19 && idx % 15 == 4) { return vec![format!("hr.static {}", rng.range(1, 4))]; }
